@@ -163,7 +163,13 @@ func (c04) Case(c *core.Ctx) {
 	}
 
 	mxj.SetGlobalKeyMapPrefix(kp)
-	mxj.XMLEscapeChars(true)
+	if r.Intn(3) == 0 {
+		// decoder-side escaping is the other symmetric way to keep values intact through the sequence codec
+		mxj.XMLEscapeCharsDecoder(true)
+		c.Count("decoder-side-escaping")
+	} else {
+		mxj.XMLEscapeChars(true)
+	}
 	defer ResetDefaults()
 	defer verifyKept(c, "c04-retained-output-changed")
 	c.Eval()
